@@ -115,9 +115,9 @@ Proof.
       cbn. exists cr, sidx. repeat split; [exact Hk|exact Hi|exists p; exact Hp].
     + apply fs_longest_none in El. lia.
   - destruct rows as [|f r]; [congruence|].
-    set (c := ns_count (limit_of cr) 0 nid (f :: r)) in *.
+    set (c := ns_count (nlimit_of cr) 0 nid (f :: r)) in *.
     destruct (c =? 0) eqn:Ec; injection E as <- <- <-; [lia|].
-    destruct (ns_count_ok (limit_of cr) nid (f :: r) 0) as (_ & B & C). fold c in B, C.
+    destruct (ns_count_ok (nlimit_of cr) nid (f :: r) 0) as (_ & B & C). fold c in B, C.
     clearbody c. split; [cbn [length] in *; lia|]. split; [|discriminate].
     cbn [src_ok]. exists cr, nid, f. split; [exact Hk|]. split; [reflexivity|]. split; [|split; reflexivity].
     intros i Hi. rewrite nth_indep with (d' := Build_ichunk 0%N 0%N 0%N) by (cbn [length] in *; lia). apply C. lia.
